@@ -15,9 +15,12 @@ The translator never guesses: every construct outside the supported subset abort
 
   statements   assignment (names, tuple targets from tuple-valued calls / divmod, fields of the object
                under construction), augmented assignment, if/elif/else, return, raise <Builtin>(...),
+               `while` loops without break/continue/return/else (only when the target declares "loop_fuel": each
+               becomes a function recursive on a fuel counter; out of fuel = error `decimalDomain`, i.e. outside
+               the modelled domain),
                expression statements that call a raising helper, pass, local imports, docstrings,
                the constructor idiom `self = super().__new__(cls)` ... `return self`
-  expressions  int literals, True/False, names, + - * // % ** (literal exponent) >> << ~ unary -, `x & (2^k-1)`,
+  expressions  int literals, True/False, names, + - * // % ** (literal exponent) >> << & | ^ ~ unary -,
                comparisons incl. chained, and/or/not, conditional expressions, tuples, walrus,
                module-/class-level integer constants (resolved from the SOURCE by AST evaluation of the
                defining expression, recursively; tables built at class creation by a static function of the
@@ -35,9 +38,11 @@ Semantics fixed by the translator (its trusted base):
     path exists); for a positive divisor they coincide with Lean's `/` and `%` (`Pyoda.fdiv_pos`,
     `Pyoda.fmod_pos`).  With a run-time divisor they are the raising calls `Pyoda.Gen.pyFloorDiv/pyFloorMod`
     (ZeroDivisionError for 0, else Int.fdiv/Int.fmod).  Division by the constant 0 is UNSUPPORTED.
-  * `>>` by a constant n ≥ 0 is `Int.shiftRight` (floor division by 2^n, as in Python); `<<` is `* 2^n`;
+  * `>>` by a constant n ≥ 0 is `Int.shiftRight` (floor division by 2^n, as in Python); `<<` is `* 2^n`; with a
+    run-time count they are the raising calls `Pyoda.Gen.pyShr/pyShl` (ValueError for a negative count).
     `x & (2^k - 1)` is emitted as `Int.fmod x (2^k)` (two's-complement identity, valid for every Python int);
-    no other use of & | ^ is translated.
+    every other & | ^ is `Pyoda.Gen.pyAnd/pyOr/pyXor`, the two's-complement operations on unbounded ints
+    defined in PyodaGen/Support.lean (validated against CPython by tools/py2lean_selftest.py).
   * calls that can raise are bound in evaluation order (left to right, arguments before the call) in the
     `Except PyExc` monad; a raising call under a short-circuit operand or conditional expression is UNSUPPORTED.
     All other expressions are pure, so evaluation order is irrelevant for them.
@@ -205,6 +210,7 @@ class ConstEval:
 
     def __init__(self, src: Source):
         self.src = src
+        self.private_owner = None  # (rel, ClassDef) in which the function being translated is DEFINED
 
     def eval(self, e: ast.AST, rel: str, cls: ast.ClassDef | None, extra_imports=None, depth=0):
         if depth > 40:
@@ -298,6 +304,9 @@ class ConstEval:
             if owner is None:
                 raise ValueError(f"{ast.unparse(e)}: owner is not a class")
             orel, ocls = owner
+            if e.attr.startswith("__") and not e.attr.endswith("__") and isinstance(e.value, ast.Name) and e.value.id in ("cls", "self") \
+                    and self.private_owner is not None:
+                orel, ocls = self.private_owner  # `self.__X` inside class A means `_A__X`
             m = self.src.class_member(orel, ocls, e.attr)
             if m and m[0] == "assign":
                 return self.eval(m[3], m[1], m[2], None, depth + 1)
@@ -486,7 +495,10 @@ class Target:
         self.binds = d.get("binds", {})
         self.cls_as = d.get("cls_as")  # specialise cls/self to a subclass (name resolved from `file`)
         # abstract callees passed as function parameters: [[lean param name, [arg types], ret type, dotted callee text], ...]
-        self.fun_params = [(f[0], [parse_type(x) for x in f[1]], parse_type(f[2]), f[3]) for f in d.get("fun_params", [])]
+        #   a result type written "R T" makes the callee a raising one (Except PyExc T)
+        self.fun_params = [(f[0], [parse_type(x) for x in f[1]], parse_type(f[2][2:] if f[2].startswith("R ") else f[2]), f[3]) for f in d.get("fun_params", [])]
+        self.fun_raises = {f[3]: f[2].startswith("R ") for f in d.get("fun_params", [])}
+        self.loop_fuel = d.get("loop_fuel")  # fuel of the fuel-recursive functions that `while` loops become (required when there is one)
         # Lean parameters that stand for instance attributes of an erased self (see self_attrs "param:<name>")
         self.extra_params = [(p[0], parse_type(p[1])) for p in d.get("extra_params", [])]
         # filled by translation
@@ -631,13 +643,20 @@ class Ctx:
         self.vars: dict[str, object] = {}      # python local name -> type
         self.constructing: dict[str, str] = {}  # python name of object under construction -> struct type
         self.fields: dict[tuple, object] = {}   # (objname, field) -> type, when assigned
+        self.defaults: dict[str, object] = {}   # undeclared parameter -> its constant default (until reassigned)
 
     def copy(self):
         c = Ctx()
         c.vars = dict(self.vars)
         c.constructing = dict(self.constructing)
         c.fields = dict(self.fields)
+        c.defaults = dict(self.defaults)
         return c
+
+    def bind(self, name: str, ty) -> None:
+        """a (re)binding of a Python local on this path"""
+        self.vars[name] = ty
+        self.defaults.pop(name, None)
 
 
 def strip_parens(s: str) -> str:
@@ -656,10 +675,16 @@ def strip_parens(s: str) -> str:
 
 
 def lname(s: str) -> str:
-    s = s.lstrip("_") or "x"
-    if s in LEAN_KEYWORDS:
-        s = s + "_"
+    """Python identifier -> Lean identifier, injectively: the name itself, «quoted» when Lean reserves it.
+    (Names the translator invents contain `'`, which no Python identifier does.)"""
+    if s in LEAN_KEYWORDS or s == "_" or not s.isascii():
+        return "«" + s + "»"
     return s
+
+
+class _LoopContinue(ast.stmt):
+    """synthetic statement: end of a while-loop body (recursive call of the loop function)"""
+    _fields = ()
 
 
 class FnTranslator:
@@ -671,6 +696,17 @@ class FnTranslator:
         self.nodes = 0
         self.tmp = 0
         t.calls = []
+        t.loops = []
+        # every name bound anywhere in the function is local to it (Python scoping)
+        self.assigned_names = set()
+        for n in ast.walk(self.node):
+            if isinstance(n, ast.Name) and isinstance(n.ctx, (ast.Store, ast.Del)):
+                self.assigned_names.add(n.id)
+        a_ = self.node.args
+        self.local_names = set(self.assigned_names) | {x.arg for x in a_.posonlyargs + a_.args + a_.kwonlyargs}
+        clash = self.local_names & {"Int", "Nat", "Bool", "R", "Pyoda", "Except", "List", "String", "Unit", "Prod", "Decidable", "fuel"}
+        if clash:
+            raise Unsupported(self.file, self.node, f"local name(s) {sorted(clash)} clash with Lean namespaces used by the generated code")
         self.local_imports = {}
         for n in ast.walk(self.node):
             if isinstance(n, ast.ImportFrom):
@@ -687,9 +723,16 @@ class FnTranslator:
     def bad(self, node, what):
         raise Unsupported(self.file, node, what)
 
+    def ref(self, lean_name: str) -> str:
+        """How this function refers to a generated definition: by its short name, or fully qualified when a Python
+        local of this function has the same name as the first component (a `let` would shadow it)."""
+        if lean_name.split(".")[0] in self.local_names:
+            return f"Pyoda.Gen.{self.g.prop}.{lean_name}"
+        return lean_name
+
     def fresh(self, base="t"):
         self.tmp += 1
-        return f"{base}{self.tmp}"
+        return f"{base}'{self.tmp}"
 
     # ---- entry -------------------------------------------------------------------------------
     def run(self):
@@ -715,7 +758,6 @@ class FnTranslator:
                 self.bad(node, "method without receiver")
             self.receiver = pyparams[0]
         self.absent_params = {}
-        self.default_consts = {}
         for p in pyparams:
             if p in declared:
                 if p in t.absent:
@@ -738,7 +780,7 @@ class FnTranslator:
                         self.bad(node, f"default of undeclared parameter {p}: {e}")
                     if isinstance(v, list):
                         self.bad(node, f"default of {p} is a table")
-                    self.default_consts[p] = v
+                    ctx.defaults[p] = v
                     ctx.vars[p] = "Bool" if isinstance(v, bool) else "Int"
             else:
                 self.bad(node, f"parameter {p} is neither declared in the target nor defaulted")
@@ -761,7 +803,7 @@ class FnTranslator:
         for n in ir:
             k = n[0]
             if k in ("raise", "bind", "tail"):
-                return True
+                return True  # (a loop call is a "bind": running out of fuel is an error value)
             if k == "if" and (self.ir_raises(n[2]) or self.ir_raises(n[3])):
                 return True
         return False
@@ -823,6 +865,17 @@ class FnTranslator:
                 b2 = self.block(list(st.orelse) + rest, c2)
                 out.append(("if", cond, b1, b2))
                 return out
+            if isinstance(st, _LoopContinue):
+                out.extend(self.loop_continue(st, ctx))
+                return out
+            if isinstance(st, ast.For):
+                stmts = self.for_as_while(st, ctx) + rest
+                i = 0
+                continue
+            if isinstance(st, ast.While):
+                out.extend(self.do_while(st, ctx))
+                i += 1
+                continue
             if isinstance(st, (ast.Assign, ast.AnnAssign, ast.AugAssign)):
                 out.extend(self.do_assign(st, ctx))
                 i += 1
@@ -839,6 +892,112 @@ class FnTranslator:
             out.append(("ret", "()", "Unit"))
             return out
         self.bad(self.node, "control reaches the end of the function (returns None)")
+
+    # ---- while loops -> fuel-recursive auxiliary functions -------------------------------------------------
+    def do_while(self, st: ast.While, ctx: Ctx) -> list:
+        t = self.t
+        if t.loop_fuel is None or not isinstance(t.loop_fuel, int) or t.loop_fuel <= 0:
+            self.bad(st, "statement While (the target declares no loop_fuel)")
+        if st.orelse:
+            self.bad(st, "while/else")
+        if getattr(self, "in_loop", False):
+            self.bad(st, "nested while loop")
+        for n in ast.walk(st):
+            if isinstance(n, (ast.Return, ast.Break, ast.Continue, ast.While, ast.For)) and n is not st:
+                self.bad(n, f"{type(n).__name__} inside a while loop")
+        carried = []
+        for n in ast.walk(ast.Module(body=st.body, type_ignores=[])):
+            if isinstance(n, ast.Name) and isinstance(n.ctx, ast.Store) and n.id not in carried:
+                carried.append(n.id)
+            if isinstance(n, ast.Attribute) and isinstance(n.ctx, ast.Store):
+                self.bad(n, "attribute assignment inside a while loop")
+        # order of first assignment in the source
+        order = {}
+        for n in ast.walk(ast.Module(body=st.body, type_ignores=[])):
+            if isinstance(n, ast.Name) and isinstance(n.ctx, ast.Store):
+                order.setdefault(n.id, (n.lineno, n.col_offset))
+        carried.sort(key=lambda x: order[x])
+        if not carried:
+            self.bad(st, "while loop that assigns nothing")
+        for v in carried:
+            if v not in ctx.vars or ctx.vars[v] in ("None", "Erased", "Str") or v in ctx.constructing:
+                self.bad(st, f"loop variable {v} is not defined (with a value type) before the loop")
+            if v in ctx.defaults:
+                ctx.bind(v, ctx.vars[v])
+        read = []
+        for n in ast.walk(ast.Module(body=[ast.Expr(value=st.test)] + st.body, type_ignores=[])):
+            if isinstance(n, ast.Name) and isinstance(n.ctx, ast.Load) and n.id in ctx.vars and n.id not in carried and n.id not in read \
+                    and ctx.vars[n.id] not in ("None", "Erased", "Str") and n.id not in ctx.defaults:
+                read.append(n.id)
+        self.loop_count = getattr(self, "loop_count", 0) + 1
+        lp = {"index": self.loop_count, "name": f"{t.lean_name}.loop{self.loop_count}", "line": st.lineno,
+              "free": [(v, ctx.vars[v]) for v in read], "carried": [(v, ctx.vars[v]) for v in carried]}
+        lp["type"] = lp["carried"][0][1] if len(carried) == 1 else tuple(ty for _, ty in lp["carried"])
+        # the loop function: if cond then body; recurse else return the carried variables
+        lctx = ctx.copy()
+        self.in_loop, self.cur_loop = True, lp
+        try:
+            pre = []
+            cond = self.prop(st.test, lctx, pre)
+            body = self.block(list(st.body) + [_LoopContinue()], lctx.copy())
+        finally:
+            self.in_loop = False
+        tup = lname(carried[0]) if len(carried) == 1 else "(" + ", ".join(lname(v) for v in carried) + ")"
+        cty = lp["carried"][0][1] if len(carried) == 1 else tuple(ty for _, ty in lp["carried"])
+        lp["ir"] = pre + [("if", cond, body, [("ret", tup, cty)])]
+        lp["type"] = cty
+        t.loops.append(lp)
+        call = " ".join([self.ref(lp["name"])] + [n for n, _, _, _ in t.fun_params] + [lname(n) for n, _ in t.extra_params]
+                        + [lname(v) for v in read] + [str(t.loop_fuel)] + [lname(v) for v in carried])
+        for v, ty in lp["carried"]:
+            ctx.bind(v, ty)
+        return [("bind", tup, call, cty)]
+
+    def for_as_while(self, st: ast.For, ctx: Ctx) -> list:
+        """`for i in range([lo,] hi): body`  ==  `i = lo; hi' = hi; while i < hi': body; i += 1`
+        (valid because the body may not assign i, and range() evaluates its arguments once).  After the loop Python
+        leaves i at the last value taken; the rewritten loop leaves it one further, so i must not be read afterwards:
+        the translator renames it to a name no Python code can mention."""
+        if st.orelse or not isinstance(st.target, ast.Name):
+            self.bad(st, "for/else or a tuple target")
+        it = st.iter
+        if not (isinstance(it, ast.Call) and isinstance(it.func, ast.Name) and it.func.id == "range" and not it.keywords and 1 <= len(it.args) <= 2):
+            self.bad(st, "statement For over something other than range(hi) / range(lo, hi)")
+        var = st.target.id
+        for n in ast.walk(ast.Module(body=st.body, type_ignores=[])):
+            if isinstance(n, ast.Name) and n.id == var and isinstance(n.ctx, ast.Store):
+                self.bad(n, "assignment to the loop variable of a for loop")
+        # uses of the loop variable after the loop would see a different value: forbid them
+        body_nodes = set(id(n) for n in ast.walk(st))
+        for n in ast.walk(self.node):
+            if isinstance(n, ast.Name) and n.id == var and id(n) not in body_nodes and (n.lineno, n.col_offset) > (st.end_lineno, st.end_col_offset):
+                self.bad(n, "use of a for-loop variable after its loop")
+        lo = it.args[0] if len(it.args) == 2 else ast.Constant(value=0)
+        hi = it.args[-1]
+        self.for_count = getattr(self, "for_count", 0) + 1
+        hi_name = f"range_hi_{self.for_count}_"
+        if hi_name in self.local_names:
+            self.bad(st, "name clash with the translator's range bound")
+        self.assigned_names.add(hi_name)
+        mk = lambda n: ast.copy_location(n, st)  # noqa: E731
+        init = [mk(ast.Assign(targets=[mk(ast.Name(id=var, ctx=ast.Store()))], value=lo)),
+                mk(ast.Assign(targets=[mk(ast.Name(id=hi_name, ctx=ast.Store()))], value=hi))]
+        test = mk(ast.Compare(left=mk(ast.Name(id=var, ctx=ast.Load())), ops=[ast.Lt()], comparators=[mk(ast.Name(id=hi_name, ctx=ast.Load()))]))
+        step = mk(ast.AugAssign(target=mk(ast.Name(id=var, ctx=ast.Store())), op=ast.Add(), value=mk(ast.Constant(value=1))))
+        loop = mk(ast.While(test=test, body=list(st.body) + [step], orelse=[]))
+        for n in init + [loop]:
+            ast.fix_missing_locations(n)
+        return init + [loop]
+
+    def loop_continue(self, st, ctx: Ctx) -> list:
+        lp = self.cur_loop
+        for v, ty in lp["carried"]:
+            if ctx.vars.get(v) != ty:
+                self.bad(self.node, f"loop variable {v} changes its type inside the loop")
+        t = self.t
+        call = " ".join([self.ref(lp["name"])] + [n for n, _, _, _ in t.fun_params] + [lname(n) for n, _ in t.extra_params]
+                        + [lname(v) for v, _ in lp["free"]] + ["fuel'"] + [lname(v) for v, _ in lp["carried"]])
+        return [("tail", call, lp["type"])]
 
     def needs_statement_form(self, ie: ast.IfExp, ctx: Ctx) -> bool:
         """Does a branch of this conditional expression contain something that must be hoisted (a raising call,
@@ -913,7 +1072,7 @@ class FnTranslator:
             self.bad(node, f"return type {ty} differs from the declared {self.t.ret}")
 
     def field_var(self, obj: str, field: str) -> str:
-        return f"{lname(obj)}_{field}"
+        return f"{obj}'{field}"
 
     def do_expr_stmt(self, st: ast.Expr, ctx: Ctx) -> list:
         v = st.value
@@ -956,7 +1115,7 @@ class FnTranslator:
             if isinstance(value, ast.Call) and isinstance(value.func, ast.Name) and value.func.id == "divmod" and len(names) == 2:
                 a, d = self.divmod_args(value, ctx, pre)
                 out = pre + [("let", lname(names[0]), f"Int.fdiv {a} {d}", "Int"), ("let", lname(names[1]), f"Int.fmod {a} {d}", "Int")]
-                ctx.vars[names[0]] = ctx.vars[names[1]] = "Int"
+                ctx.bind(names[0], "Int"); ctx.bind(names[1], "Int")
                 return out
             if isinstance(value, ast.Call):
                 kind, txt, ty = self.call(value, ctx, pre, want_raw=True)
@@ -964,7 +1123,7 @@ class FnTranslator:
                     self.bad(st, "tuple assignment from a non-tuple or wrong arity")
                 pat = "(" + ", ".join(lname(n) for n in names) + ")"
                 for n, tt in zip(names, ty):
-                    ctx.vars[n] = tt
+                    ctx.bind(n, tt)
                 return pre + [("bind" if kind == "raising" else "let", pat, txt, ty)]
             if isinstance(value, ast.Tuple) and len(value.elts) == len(names):
                 vals = [self.expr(e, ctx, pre) for e in value.elts]
@@ -976,7 +1135,7 @@ class FnTranslator:
                     out.append(("let", tv, txt, ty))
                 for n, (tv, ty) in zip(names, tmps):
                     out.append(("let", lname(n), tv, ty))
-                    ctx.vars[n] = ty
+                    ctx.bind(n, ty)
                 return out
             self.bad(st, "tuple assignment")
         if isinstance(target, ast.Attribute):
@@ -999,7 +1158,7 @@ class FnTranslator:
             self.bad(st, f"assignment of a value of type {ty}")
         if ty == "Prop":
             txt, ty = f"decide ({strip_parens(txt)})", "Bool"
-        ctx.vars[target.id] = ty
+        ctx.bind(target.id, ty)
         return pre + [("bind" if kind == "raising" else "let", lname(target.id), txt, ty)]
 
     def value_for_bind(self, value, ctx, pre):
@@ -1128,8 +1287,9 @@ class FnTranslator:
 
     def const_of(self, e, ctx: Ctx):
         """int value if `e` is a compile-time constant (no locals/params involved), else None."""
+        self.g.ce.private_owner = (self.file, self.t.cls_node) if getattr(self.t, "cls_node", None) is not None else None
         for n in ast.walk(e):
-            if isinstance(n, ast.Name) and (n.id in ctx.vars or n.id in ctx.constructing) and n.id not in ("cls", "self"):
+            if isinstance(n, ast.Name) and (n.id in ctx.vars or n.id in ctx.constructing or n.id in self.assigned_names) and n.id not in ("cls", "self"):
                 return None
             if isinstance(n, ast.Name) and n.id in ("self", "cls") and ctx.vars.get(n.id) not in (None, "Erased"):
                 # attribute of a struct-typed receiver is not a constant unless it is a class constant; decided in eval
@@ -1171,19 +1331,21 @@ class FnTranslator:
             if ty == "Prop":
                 txt, ty = f"decide ({strip_parens(txt)})", "Bool"
             pre.append(("let", lname(e.target.id), txt, ty))
-            ctx.vars[e.target.id] = ty
+            ctx.bind(e.target.id, ty)
             return lname(e.target.id), ty
         if isinstance(e, ast.Name):
             if e.id in ctx.constructing:
                 self.bad(e, "use of the object under construction as a value")
-            if e.id in self.default_consts and e.id in ctx.vars and e.id not in dict(self.t.params) and not getattr(self, "_assigned_" + e.id, False):
-                v = self.default_consts[e.id]
+            if e.id in ctx.defaults:
+                v = ctx.defaults[e.id]
                 return self.lit(v), ("Bool" if isinstance(v, bool) else "Int")
             if e.id in ctx.vars:
                 ty = ctx.vars[e.id]
                 if ty in ("None", "Erased", "Str"):
                     self.bad(e, f"use of {e.id} (type {ty}) as a value")
                 return lname(e.id), ty
+            if e.id in self.assigned_names:
+                self.bad(e, f"read of local {e.id} before any assignment on this path")
             v = self.const_of(e, ctx)
             if v is not None:
                 self.record_const(e, v)
@@ -1262,6 +1424,7 @@ class FnTranslator:
     def subscript(self, e: ast.Subscript, ctx, pre, cond):
         """constant int table indexed by an int expression -> bounds-checked lookup (raises IndexError)."""
         tbl = None
+        self.g.ce.private_owner = (self.file, self.t.cls_node) if getattr(self.t, "cls_node", None) is not None else None
         try:
             tbl = self.g.ce.eval(e.value, self.cls_rel if self.uses_cls(e.value) else self.file, self.cls_node, self.local_imports)
         except (ValueError, RecursionError):
@@ -1410,18 +1573,25 @@ class FnTranslator:
             return f"({a} ^ {n})", "Int"
         if isinstance(op, (ast.RShift, ast.LShift)):
             n = self.const_of(e.right, ctx)
+            if n is None and ta == "Int":
+                # run-time shift count: ValueError for a negative count, so the operation is a raising call
+                b, tb = self.expr(e.right, ctx, pre, cond)
+                if tb != "Int":
+                    self.bad(e, f"shift by a value of type {tb}")
+                fn = "Pyoda.Gen.pyShr" if isinstance(op, ast.RShift) else "Pyoda.Gen.pyShl"
+                r = self.deliver(e, f"{fn} {self.paren(a)} {self.paren(b)}", "Int", True, pre, cond, False)
+                return r[1], r[2]
             if n is None or isinstance(n, bool) or n < 0 or ta != "Int":
-                self.bad(e, "shift by a non-constant or negative amount")
+                self.bad(e, "shift by a negative constant / of a non-int")
             if isinstance(op, ast.RShift):
                 return f"({a} >>> {n})", "Int"
             return f"({a} * 2 ^ {n})", "Int"
         if isinstance(op, ast.BitAnd):
             # x & (2^k - 1) == x mod 2^k for every Python int x (two's complement); other masks are not supported
             m = self.const_of(e.right, ctx)
-            if m is None or isinstance(m, bool) or m < 0 or (m & (m + 1)) != 0 or ta != "Int":
-                self.bad(e, "& whose right operand is not a constant of the form 2^k - 1")
-            k = m.bit_length()
-            return f"(Int.fmod {a} {2 ** k})", "Int"
+            if not (m is None or isinstance(m, bool) or m < 0 or (m & (m + 1)) != 0 or ta != "Int"):
+                k = m.bit_length()
+                return f"(Int.fmod {a} {2 ** k})", "Int"
         b, tb = self.expr(e.right, ctx, pre, cond)
         if tb in self.g.types and isinstance(op, ast.Mult) and ta == "Int":
             return self.operator_call(e, tb, "__rmul__", [(b, tb), (a, ta)], ctx, pre, cond)
@@ -1430,6 +1600,9 @@ class FnTranslator:
         sym = {ast.Add: "+", ast.Sub: "-", ast.Mult: "*"}.get(type(op))
         if sym:
             return f"({a} {sym} {b})", "Int"
+        fn = {ast.BitAnd: "Pyoda.Gen.pyAnd", ast.BitOr: "Pyoda.Gen.pyOr", ast.BitXor: "Pyoda.Gen.pyXor"}.get(type(op))
+        if fn:  # two's-complement operations on unbounded ints (PyodaGen/Support.lean)
+            return f"({fn} {self.paren(a)} {self.paren(b)})", "Int"
         self.bad(e, f"operator {type(op).__name__}")
 
     def compare(self, e: ast.Compare, ctx, pre, cond):
@@ -1516,6 +1689,8 @@ class FnTranslator:
                     if ty != want:
                         self.bad(e, f"argument of {dotted} has type {ty}, expected {want}")
                     parts.append(self.paren(txt))
+                if self.t.fun_raises.get(fd):
+                    return self.deliver(e, f"{fname} {' '.join(parts)}", rt, True, pre, cond, want_raw)
                 return "pure", f"({fname} {' '.join(parts)})", rt
         # per-target binding (virtual dispatch resolved by the target list)
         if dotted in self.t.binds:
@@ -1634,7 +1809,7 @@ class FnTranslator:
         return self.deliver(e, txt, ty, bool(h.get("raises")), pre, cond, want_raw)
 
     def paren(self, s: str) -> str:
-        if s.startswith("(") or s.startswith("⟨") or s.replace("_", "").replace(".", "").replace("'", "").isalnum():
+        if s.startswith("(") or s.startswith("⟨") or s.startswith("«") or s.replace("_", "").replace(".", "").replace("'", "").isalnum():
             return s
         return f"({s})"
 
@@ -1663,7 +1838,10 @@ class FnTranslator:
             receiver = args[0]
             args = []
         provided_kw = [k.arg for k in keywords] if keywords else []
-        chosen, why = None, []
+        # evaluate the arguments once, in source order (this may hoist raising calls), then pick the overload
+        pos_vals = [self.arg_or_str(a, ctx, pre, cond) for a in args] + (list(extra) if extra else [])
+        kw_vals = {k.arg: self.arg_or_str(k.value, ctx, pre, cond) for k in (keywords or [])}
+        fits, why = [], []
         for c in cands:
             self.g.ensure(c)
             if c.state != "done":
@@ -1672,7 +1850,7 @@ class FnTranslator:
             pyp = list(c.pyparams)
             if c.kind in ("method", "property", "class"):
                 pyp = pyp[1:]
-            npos = len(args) + (len(extra) if extra else 0)
+            npos = len(pos_vals)
             if npos > len(pyp):
                 why.append(f"{c.lean_name}: too many positional arguments")
                 continue
@@ -1681,7 +1859,7 @@ class FnTranslator:
                 why.append(f"{c.lean_name}: keyword mismatch")
                 continue
             bound |= set(provided_kw)
-            declared = {n for n, _ in c.params}
+            declared = dict(c.params)
             if any(p in c.absent or (p not in declared) for p in bound):
                 why.append(f"{c.lean_name}: passes a parameter this specialisation treats as absent/defaulted")
                 continue
@@ -1690,11 +1868,23 @@ class FnTranslator:
             if any(n not in bound and n not in c.pydefaults for n in need):
                 why.append(f"{c.lean_name}: missing argument")
                 continue
-            chosen = c
-            break
-        if chosen is None:
+            given = dict(zip(pyp, pos_vals))
+            given.update(kw_vals)
+            mism = [n for n, (_, vty) in given.items()
+                    if not (vty == declared[n] or (vty == "Prop" and declared[n] == "Bool") or (vty == "Str" and declared[n] == "Str"))]
+            if mism:
+                why.append(f"{c.lean_name}: argument type mismatch for {mism}")
+                continue
+            if receiver is not None and not constructing and c.kind in ("method", "property") and c.pyparams[0] in declared \
+                    and declared[c.pyparams[0]] != receiver[1]:
+                why.append(f"{c.lean_name}: receiver type mismatch")
+                continue
+            fits.append(c)
+        if not fits:
             self.bad(e, "no translated specialisation accepts this call: " + "; ".join(why))
-        c = chosen
+        if len(fits) > 1:
+            self.bad(e, "ambiguous call: several translated specialisations accept it: " + ", ".join(c.lean_name for c in fits))
+        c = fits[0]
         if c not in self.t.calls:
             self.t.calls.append(c)
         pyp = list(c.pyparams)
@@ -1702,12 +1892,8 @@ class FnTranslator:
         if c.kind in ("method", "property", "class"):
             recv_name = pyp[0]
             pyp = pyp[1:]
-        vals = {}
-        pos_vals = [self.arg_or_str(a, ctx, pre, cond) for a in args] + (list(extra) if extra else [])
-        for p, v in zip(pyp, pos_vals):
-            vals[p] = v
-        for k in keywords or []:
-            vals[k.arg] = self.arg_or_str(k.value, ctx, pre, cond)
+        vals = dict(zip(pyp, pos_vals))
+        vals.update(kw_vals)
         out = []
         for n, ty in c.params:
             if ty == "Str":
@@ -1737,6 +1923,7 @@ class FnTranslator:
             else:
                 d = c.pydefaults.get(n)
                 try:
+                    self.g.ce.private_owner = (c.file, c.cls_node) if getattr(c, "cls_node", None) is not None else None
                     v = self.g.ce.eval(d, c.file, getattr(c, "cls_node", None))
                 except (ValueError, TypeError):
                     self.bad(e, f"argument {n} of {c.lean_name} omitted and its default is not a constant")
@@ -1745,7 +1932,7 @@ class FnTranslator:
         for fname, ats, rt, fd in c.fun_params:
             mine = [x for x in self.t.fun_params if x[3] == fd]
             if mine:
-                if (mine[0][1], mine[0][2]) != (ats, rt):
+                if (mine[0][1], mine[0][2], self.t.fun_raises.get(fd)) != (ats, rt, c.fun_raises.get(fd)):
                     self.bad(e, f"abstract callee {fd}: signature differs between {self.t.lean_name} and {c.lean_name}")
                 fargs.append(mine[0][0])
             elif fd in self.t.binds:
@@ -1753,18 +1940,18 @@ class FnTranslator:
                 if not bt:
                     self.bad(e, f"binds entry {fd}: no such target")
                 self.g.ensure(bt[0])
-                if bt[0].state != "done" or bt[0].raises or bt[0].fun_params or [ty for _, ty in bt[0].lean_params()] != ats or bt[0].ret != rt:
+                if bt[0].state != "done" or bool(bt[0].raises) != bool(c.fun_raises.get(fd)) or bt[0].fun_params or [ty for _, ty in bt[0].lean_params()] != ats or bt[0].ret != rt:
                     self.bad(e, f"{bt[0].lean_name} cannot be passed for the abstract callee {fd} of {c.lean_name}")
                 if bt[0] not in self.t.calls:
                     self.t.calls.append(bt[0])
-                fargs.append(bt[0].lean_name)
+                fargs.append(self.ref(bt[0].lean_name))
             else:
                 self.bad(e, f"{c.lean_name} needs the abstract callee {fd}, which {self.t.lean_name} neither has nor binds")
         for n, ty in c.extra_params:
             if (n, ty) not in self.t.extra_params:
                 self.bad(e, f"{c.lean_name} needs the instance attribute parameter {n}, which {self.t.lean_name} does not have")
             fargs.append(lname(n))
-        txt = " ".join([c.lean_name] + fargs + [self.paren(x) for x in out])
+        txt = " ".join([self.ref(c.lean_name)] + fargs + [self.paren(x) for x in out])
         r = self.deliver(e, txt, c.ret, c.raises, pre, cond, want_raw)
         return r
 
@@ -1796,7 +1983,7 @@ class Emitter:
         if consts:
             doc.append("    constants: " + ", ".join(f"{k} = {v}" for k, v in sorted(consts.items())))
         doc[-1] += " -/"
-        fps = " ".join(f"({n} : {' → '.join(self.g.lean_type(x) for x in ats + [rt])})" for n, ats, rt, _ in t.fun_params)
+        fps = self.fun_param_sig()
         eps = " ".join(f"({lname(n)} : {self.g.lean_type(ty)})" for n, ty in t.extra_params)
         params = (fps + " " if fps else "") + (eps + " " if eps else "") + " ".join(f"({lname(n)} : {self.g.lean_type(ty)})" for n, ty in t.lean_params())
         rty = self.g.lean_type(t.ret)
@@ -1804,9 +1991,34 @@ class Emitter:
             head = f"def {t.lean_name} {params} : R {rty} := do".replace("  ", " ")
         else:
             head = f"def {t.lean_name} {params} : {rty} :=".replace("  ", " ")
-        lines = doc + [head]
+        lines = self.emit_loops() + doc + [head]
         lines += self.block(t.body_ir, 1, t.raises)
         return lines
+
+    def fun_param_sig(self) -> str:
+        t = self.t
+        return " ".join("(" + n + " : " + " → ".join([self.g.lean_type(x) for x in ats] + [("R " if t.fun_raises.get(fd) else "") + self.g.lean_type(rt)]) + ")"
+                        for n, ats, rt, fd in t.fun_params)
+
+    def emit_loops(self) -> list[str]:
+        """The fuel-recursive functions of the target's `while` loops (structural recursion on the fuel)."""
+        t = self.t
+        out = []
+        for lp in t.loops:
+            fps = self.fun_param_sig()
+            eps = " ".join(f"({lname(n)} : {self.g.lean_type(ty)})" for n, ty in t.extra_params)
+            frees = " ".join(f"({lname(n)} : {self.g.lean_type(ty)})" for n, ty in lp["free"])
+            head = " ".join(x for x in [f"def {lp['name']}", fps, eps, frees] if x)
+            cty = [self.g.lean_type(ty) for _, ty in lp["carried"]]
+            rty = cty[0] if len(cty) == 1 else "(" + " × ".join(cty) + ")"
+            out.append(f"/-- loop {lp['index']} of `{t.file}: {(t.cls + '.') if t.cls else ''}{t.function}` (line {lp['line']}): `while` as recursion on the fuel;")
+            out.append("    out of fuel = outside the modelled domain (`decimalDomain`, reply `!dom`) -/")
+            out.append(f"{head} : Nat → {' → '.join(cty)} → R {rty}")
+            out.append(f"  | 0, {', '.join('_' for _ in cty)} => .error .decimalDomain")
+            out.append(f"  | fuel'+1, {', '.join(lname(n) for n, _ in lp['carried'])} => do")
+            out += self.block(lp["ir"], 2, True)
+            out.append("")
+        return out
 
     def block(self, ir: list, ind: int, monadic: bool) -> list[str]:
         pad = "  " * ind
